@@ -4,19 +4,23 @@ from . import stor as S
 
 META = {
     "level": "proof",
-    "technique": ("Lean 4 fault-aware writer model (every file operation gets ok|err|short n) with a kernel-checked witness for the "
-                  "current failure handling and a theorem for a repaired one + go/ast fact tie + correspondence on real runs with "
-                  "strace-injected EIO (write, fsync; single and double) and RLIMIT_FSIZE short writes"),
-    "text": ("Hv.C25.failed_write_drops_entries refutes the full statement for the code as it is (WriteBuffer.Flush empties the buffer "
-             "before the block is written, a failed write loses it silently); repaired_flush_partial / repaired_writer_safe_partial: a "
-             "flush that cuts a failed block off again and restores the offset after a failed header rewrite hides and drops nothing, "
-             "for every result stream whose rollback truncate succeeds (a fault on the rollback itself is not covered: partial). "
-             "The other three defects (partial block strands later writes, failed header rewrite leaves the offset at 0 so the next "
-             "block overwrites the file start, failed create bricks the swamp) are predicted by the executable model and reproduced "
-             "on the real code by the correspondence run, not proved as separate Lean witnesses."),
-    "note": ("Trusted: Lean kernel (propext, Quot.sound); extract/c02.go+c25.go; harness/c02.go+c25.go (strace inject, rlimit); "
-             "fault model: an operation fails as a whole or a write is cut after n bytes; one fault episode (<= 2 faults) per history, "
-             "then the fault clears. Faults on openat/rename and during compaction are not injected."),
+    "technique": ("Lean 4 fault-aware writer model (every file operation gets ok|err|short n; the block count field is 16 bits wide and "
+                  "the reader rejects a wrapped count) with kernel-checked witnesses for the defective failure handlings and a theorem "
+                  "for the repaired one + go/ast fact tie + correspondence on real runs with strace-injected EIO (write, fsync, "
+                  "ftruncate, rename; single and double), RLIMIT_FSIZE short writes, faults during compaction, and a long outage that "
+                  "piles up more than 65535 pending entries"),
+    "text": ("Hv.C25.holds_of_repaired: a flush that rolls a failed block back (retrying a failed rollback before the next block), "
+             "restores the offset after a failed header rewrite and never puts more than 65535 entries into a block hides and drops "
+             "nothing — for every buffer length, every result stream over the flush and any number of writes during the outage "
+             "(each may trigger a flush that fails again), then the fault clears, more is written and synced; flush_chunks_bounded: "
+             "every block it puts on disk holds <= 65535 entries and an exact count field.  Witnesses: failed_write_drops_entries "
+             "(buffer emptied before the write, no rollback) and oversized_block_unreadable (rollback without splitting: a buffer of "
+             "65536 entries becomes one block with a wrapped EntryCount; the reader rejects it and hides the durable block in front "
+             "of it) refute the statement; classify_sound decides from the extracted facts."),
+    "note": ("Trusted: Lean kernel (propext, Classical.choice, Quot.sound); extract/c02.go+c03.go+c04.go+c25.go; harness/c02.go+c25.go "
+             "(strace inject, rlimit); fault model: an operation fails as a whole or a write is cut after n bytes; MkOk (the encoder is "
+             "exact) is assumed only for batches of <= 65535 entries; the linear-time addManyWF the driver runs is proved equal to the "
+             "model's (csimp).  C25-failed-create-drops-batch stays open (needs an error path out of Chronicler.Write)."),
     "design_ref": "§8 C25",
 }
 
@@ -32,6 +36,10 @@ FINDINGS = {
     "C25-failed-create-drops-batch": "when createNewFile fails (header/name write error) ensureWriter returns the error, chronicler.Write logs it and "
                                      "returns: the whole batch is dropped although the swamp already took it off its write queue; the next "
                                      "batch recreates the file and is stored",
+    "C25-restored-buffer-overflows-entry-count": "flushLocked puts the entries of a failed block back into the buffer; during an outage the "
+                                                 "buffer grows past 65535 entries, CompressEntries stores uint16(len(entries)) in the block "
+                                                 "header, and the block written once the fault clears carries a wrapped count: ParseBlock "
+                                                 "rejects it and the whole file, earlier durable records included, can no longer be loaded",
     "C25-fsync-error": "an fsync error made data unreadable",
     "C25-unexplained-loss": "records missing after a fault-free run",
 }
@@ -81,15 +89,19 @@ def run(ctx):
         ctx.violation("harness does not build against /repo", {"correspondence": "C25", "log": getattr(ctx, "hx_log", "")[-2000:]},
                       tag="build", found_input=False)
     K.decide_standard(ctx, corrs, FINDINGS)
+    covered = S.impl_reported(ctx, spec_violated)
     K.report_mismatch(ctx, spec_violated)
     bad = spec_scan(c.ops, c.impl) if not c.err else []
     mism = set(c.mismatch)
-    unflagged = [h for h in S.relevant_hits(bad, c.flags, K.known_ids("C25"), CLASSES, -1) if h[0] not in mism]
+    unflagged = [h for h in S.relevant_hits(bad, c.flags, K.known_ids("C25"), CLASSES, -1)
+                 if not (covered and h[0] in mism)]
     if unflagged:
         i, why, _ = unflagged[0]
         rep = K.case_replay(c, K.case_of(c, i), upto=i)
         rep.update({"correspondence": "C25", "oracle": "spec_scan", "violations": len(unflagged)})
-        ctx.violation("implementation violates the property (not predicted by the model): " + why, rep, tag="spec")
+        fl = c.flags[i] if i < len(c.flags) else []
+        how = ("predicted by the model as %s" % ",".join(fl)) if fl else "not predicted by the model"
+        ctx.violation("implementation violates the property (%s): %s" % (how, why), rep, tag="spec")
     if ctx.thorough:
         ok, out = K.leanchecker(ctx, ["Hv.Props.C25", "Hv.Storage.FaultLemmas", "Hv.Storage.Fault"])
         ctx.cov["leanchecker"] = "ok" if ok else out[-500:]
@@ -110,8 +122,11 @@ def run(ctx):
     return K.finish(
         ctx, "proof",
         rule=("scenarios = base histories (three synced batches, a victim region, two more synced batches, Close, fresh Load) x fault: "
-              "EIO injected by strace at the N-th write syscall for every N of the run, at the N-th fsync, at two writes, or a short "
-              "write by RLIMIT_FSIZE leaving K in {0,1,15,16,17,100,400} more bytes; each scenario is one traced run of the real "
+              "EIO injected by strace at the N-th write syscall for every N of the run, at the N-th fsync, at two writes, at a write and "
+              "the rollback truncate, or a short write by RLIMIT_FSIZE leaving K in {0,1,15,16,17,100,400} more bytes; compactions (CLI, "
+              "ForceCompaction) hit by write/fsync/rename errors; a long outage (RLIMIT_FSIZE at the file size while > 65535 minimal "
+              "entries are written, then the limit is lifted; thorough: at/around the bound, three blocks' worth, a Sync and a second "
+              "batch inside the outage, a second outage on a partly written backlog); each scenario is one traced run of the real "
               "chronicler; every traced operation and its result is compared with the fault-aware model's prediction; the final load "
               "is compared with the model and with the Spec; non-trivial = log/act line; distinct = distinct op lines"),
         samples=[{"op": S.strip_hex(c.ops[i]), "impl": c.impl[i][:160]} for i in range(0, min(len(c.ops), 60), 9) if i < len(c.impl)],
